@@ -11,7 +11,9 @@ WS(t) == InnerT(t).s = 1
 WUb(out) == out \in {"ub:SIGILL", "ub:SIGFPE", "ub:SIGSEGV", "ub:SIGBUS", "ub:signal"}
 WDiag(out, ok) == IF WUb(out) THEN "ub" ELSE IF out = "timeout" THEN "timeout" ELSE IF out # "ok" THEN "unexpected_signal"
                   ELSE IF ok THEN "ok" ELSE "wrong_value"
-WCls(e, i) == <<e.e, i.op, IF WS(i.lt) THEN "s" ELSE "u", InnerT(i.lt).limb>>
+\* limb width of the multi-limb representation (0: wide_integer<65..127> is stored in a built-in 128-bit integer)
+LimbOf(t) == IF "limb" \in DOMAIN InnerT(t) THEN InnerT(t).limb ELSE 0
+WCls(e, i) == <<e.e, i.op, IF WS(i.lt) THEN "s" ELSE "u", LimbOf(i.lt)>>
 
 JudgeWBin(e, i) ==
     LET n == WN(i.lt)  s == WS(i.lt)  a == J(e.l)  b == J(e.r)  cls == WCls(e, i)
@@ -33,7 +35,7 @@ JudgeWShift(e, i) ==
     LET n == WN(i.lt)  s == WS(i.lt)  a == J(e.l)  cls == WCls(e, i) IN
     IF e.k < 0 \/ e.k >= n THEN [d |-> "skip", nt |-> FALSE, cls |-> cls]
     ELSE [d |-> WDiag(e.out, J(e.shl) = Wrap(Shl(a, e.k), n, s) /\ J(e.shr) = ShrFloor(a, e.k)),
-          nt |-> e.k % InnerT(i.lt).limb = 0 \/ a.n, cls |-> cls]
+          nt |-> (LimbOf(i.lt) > 0 /\ e.k % LimbOf(i.lt) = 0) \/ a.n, cls |-> cls]
 
 WCmpVector(c) == <<IF c < 0 THEN 1 ELSE 0, IF c <= 0 THEN 1 ELSE 0, IF c > 0 THEN 1 ELSE 0,
                    IF c >= 0 THEN 1 ELSE 0, IF c = 0 THEN 1 ELSE 0, IF c # 0 THEN 1 ELSE 0>>
@@ -45,7 +47,7 @@ JudgeWConvInt(e, i) ==
     [d |-> WDiag(e.out, J(e.res) = WrapT(J(e.l), AsIntT(i.rt))), nt |-> ~InT(J(e.l), AsIntT(i.rt)), cls |-> WCls(e, i)]
 \* construction from a built-in integer: modulo 2^N
 JudgeWFromInt(e, i) ==
-    [d |-> WDiag(e.out, J(e.res) = Wrap(J(e.l), WN(i.rt), WS(i.rt))), nt |-> J(e.l).n, cls |-> <<e.e, i.op, IF WS(i.rt) THEN "s" ELSE "u", InnerT(i.rt).limb>>]
+    [d |-> WDiag(e.out, J(e.res) = Wrap(J(e.l), WN(i.rt), WS(i.rt))), nt |-> J(e.l).n, cls |-> <<e.e, i.op, IF WS(i.rt) THEN "s" ELSE "u", LimbOf(i.rt)>>]
 \* conversion to double: correctly rounded (round to nearest even)
 JudgeWToFloat(e, i) ==
     LET a == J(e.l)  f == e.res  want == RNE(Abs(a), 0, i.rt.p)  cls == WCls(e, i) IN
@@ -59,7 +61,7 @@ JudgeWFromFloat(e, i) ==
     LET f == e.l  n == WN(i.rt)  s == WS(i.rt)
         mag == IF f.e >= 0 THEN Shl(FMag(f), f.e) ELSE ShrTrunc(FMag(f), -f.e)
         v == IF f.n = 1 THEN Neg(mag) ELSE mag
-        cls == <<e.e, i.op, IF s THEN "s" ELSE "u", InnerT(i.rt).limb>>
+        cls == <<e.e, i.op, IF s THEN "s" ELSE "u", LimbOf(i.rt)>>
     IN IF f.c # "fin" \/ f.e > 4000 \/ ~InRange(v, n, s) THEN [d |-> "skip", nt |-> FALSE, cls |-> cls]
        ELSE [d |-> WDiag(e.out, J(e.res) = v), nt |-> BitLen(v) > 64, cls |-> cls]
 \* numeric_limits by Digits
